@@ -22,8 +22,9 @@ STUBS = ['select_ignore_interrupts/poll_ignore_interrupts: a script decides whic
          'os.read/os.write on fds 0, 1 and the child fd: recorders; the write to the child may be partial',
          'tty.tcgetattr/setraw/tcsetattr: recorded', 'spawn.isalive: true until the scripted child exit']
 ASSUMPTIONS = ['a blocking os.write to stdout is complete (A3)', '<= 2 reads per direction, <= 3 bytes per read',
-               'escape character: the default Ctrl-] (0x1d)']
+               'escape character: the default Ctrl-] (0x1d) in I1/I3; I1b also chr(0x1d), chr(0xff), chr(0x80) given explicitly']
 ESC = 0x1d
+ESCAPES = [0x1d, 0x1d, 0xff, 0x80]      # default; the same given explicitly; two escape bytes above 0x7f
 
 
 class _Tty:
@@ -110,7 +111,7 @@ def _cat(parts):
             thorough=dict(params=dict(k1=Bytes(3), k2=Bytes(3), o1=Bytes(3, min=1), o2=Bytes(3, min=1), r3=Int(1, 3),
                                       pend=Bytes(2)), timeout=3000, split=('nk', 'no', 'r0', 'r1'), twin_timeout=120),
             note='bytes mode: symbolic keystrokes and child output, readiness script of four turns')
-def I1_copy(k1, k2, o1, o2, nk, no, r0, r1, r2, r3, exits, partial, pend, poll, filt, drop=0):
+def I1_copy(k1, k2, o1, o2, nk, no, r0, r1, r2, r3, exits, partial, pend, poll, filt, drop=0, esc=0):
     nk, no = pick(nk, 0, 2), pick(no, 0, 2)
     keys = [k1, k2][:nk]
     outs = [o1, o2][:no]
@@ -154,9 +155,14 @@ def I1_copy(k1, k2, o1, o2, nk, no, r0, r1, r2, r3, exits, partial, pend, poll, 
         if drop and len(seen_out) == drop:
             return b[:0]                 # the filter swallows this whole chunk (e.g. strips a lone BEL)
         return b
+    # the escape character: the default Ctrl-], or a caller-chosen one given as str - chr(N) stands for the
+    # keystroke byte N, also above 0x7f
+    esc = pick(esc, 0, 3)
+    ESC = ESCAPES[esc]
+    kw = {} if esc == 0 else {'escape_character': chr(ESC)}
     with patched(PS, os=_OS, tty=tty, select_ignore_interrupts=sel, poll_ignore_interrupts=pol):
         try:
-            sp.interact(input_filter=fin if filt else None, output_filter=fout if filt else None)
+            sp.interact(input_filter=fin if filt else None, output_filter=fout if filt else None, **kw)
         except Skip:
             return SKIP
     # terminal mode saved, raw, restored - in that order, exactly once each
@@ -204,15 +210,16 @@ def I1_copy(k1, k2, o1, o2, nk, no, r0, r1, r2, r3, exits, partial, pend, poll, 
     return 5
 
 
-@obligation(params=dict(k1=Bytes(4, min=1), k2=Bytes(1, min=1), partial=Bool(), pend=Bytes(1), poll=Bool(), filt=Bool(), two=Bool()),
-            tags={2: 'escape typed', 4: 'escape typed twice in one read', 3: 'child exited'}, timeout=600, split=('two',),
-            note='one longer keyboard read (<= 4 bytes, escape anywhere) optionally preceded by a one-byte read, with '
+@obligation(params=dict(k1=Bytes(4, min=1), k2=Bytes(1, min=1), partial=Bool(), pend=Bytes(1), poll=Bool(), filt=Bool(), two=Bool(),
+                        esc=Int(0, 3)),
+            tags={2: 'escape typed', 4: 'escape typed twice in one read', 3: 'child exited'}, timeout=600, split=('two', 'esc'),
+            note='(esc: default escape / the same given explicitly / chr(0xff) / chr(0x80)) one longer keyboard read (<= 4 bytes, escape anywhere) optionally preceded by a one-byte read, with '
                  'partial writes towards the child: the bytes before the escape reach the child completely '
                  '(added after a seeded change that wrote that prefix with a single os.write was missed at 2-byte reads)')
-def I1b_escape_prefix(k1, k2, partial, pend, poll, filt, two):
+def I1b_escape_prefix(k1, k2, partial, pend, poll, filt, two, esc=0):
     if two:
-        return I1_copy(k2, k1, lit(b'x'), lit(b'y'), 2, 0, 2, 2, 1, 0, True, partial, pend, poll, filt, 0)
-    return I1_copy(k1, k2, lit(b'x'), lit(b'y'), 1, 0, 2, 1, 1, 0, True, partial, pend, poll, filt, 0)
+        return I1_copy(k2, k1, lit(b'x'), lit(b'y'), 2, 0, 2, 2, 1, 0, True, partial, pend, poll, filt, 0, esc)
+    return I1_copy(k1, k2, lit(b'x'), lit(b'y'), 1, 0, 2, 1, 1, 0, True, partial, pend, poll, filt, 0, esc)
 
 
 @obligation(params=dict(boom=Int(1, 3), o1=Bytes(2, min=1), k1=Bytes(2, min=1)), tags={2: 'mode restored after an exception'},
@@ -317,6 +324,9 @@ def dry_runs():
     yield 'I1_copy', dict(k1=b'a\x1db\x1dc', k2=b'zz', o1=b'xy', o2=b'q', nk=1, no=1, r0=3, r1=1, r2=1, r3=0, exits=True,
                           partial=False, pend=b'', poll=True, filt=False)
     yield 'I2_restore_on_error', dict(boom=2, o1=b'x', k1=b'y')
+    for esc, e in enumerate((b'\x1d', b'\x1d', b'\xff', b'\x80')):
+        yield 'I1b_escape_prefix', dict(k1=b'ab' + e + b'c', k2=b'q', partial=True, pend=b'', poll=False, filt=False, two=False, esc=esc)
+        yield 'I1b_escape_prefix', dict(k1=b'\xc3' + e, k2=b'q', partial=False, pend=b'p', poll=True, filt=True, two=True, esc=esc)
     yield 'I3_logging', dict(uni=False, lr=True, ls=True, lf=True, o1=b'o', k1=b'k')
 
 
